@@ -3,7 +3,8 @@
    serves a ResendRequest: serve_resend = the call site in _process_message (try / finally that
    restores ACTIVE when the handler leaves RESENDREQ_HANDLING) around _process_resend and what it
    calls, with the repairs D12 (the journal is neither rewound nor rewritten, BeginSeqNo below 1 is
-   read as 1) and R3c (state restored after an abort).
+   read as 1), R3c (state restored after an abort), R5a (numbers missing in the journal before a
+   retransmitted message are gap-filled) and R5b (the trailing gap fill stops at EndSeqNo).
 
    The property for one request (bs, es = texts of tags 7 and 16, None = tag absent) with replay
    filter f in state s is the predicate  resend_correct f s bs es  (Lemmas/ResendL.v):
@@ -17,7 +18,7 @@
      and the connection state are what they were.
    FULL STATEMENT (what C06 asks):   forall f s bs es, resend_correct f s bs es.
    The "no side effects" half holds unconditionally (C06_no_side_effects); the reply half holds
-   outside four classes; one refutation per class. *)
+   outside two narrow classes; one refutation per class. *)
 From Coq Require Import ZArith NArith List Bool.
 From AF Require Import Base.Sx Py.Str Fix.Resend Lemmas.ResendL.
 From AFGen Require Import GenEnums.
@@ -45,17 +46,16 @@ Proof. exact serve_state_restored. Qed.
 Print Assumptions C06_state_restored.
 
 (* The reply, unbounded in the journal: every journal with unique keys below the counter
-   (journal_ok: C05/C13 invariants), every replay filter, both start states and EVERY request -
-   unreadable, any BeginSeqNo (below 1, beyond the last sent number, beyond 64 bits), any EndSeqNo -
-   outside the four classes: the property holds in full.  (in_class k bs es = k applied to the
-   request as the handler reads it, (max(1, int(tag 7)), int(tag 16)); false for an unreadable one.) *)
+   (journal_ok: C05/C13 invariants) - with holes anywhere -, every replay filter, both start states
+   and EVERY request - unreadable, any BeginSeqNo (below 1, beyond the last sent number, beyond 64
+   bits), any EndSeqNo (0, bounded, below BeginSeqNo) - outside the two classes: the property holds
+   in full.  (in_class k bs es = k applied to the request as the handler reads it,
+   (max(1, int(tag 7)), int(tag 16)); false for an unreadable one.) *)
 Theorem C06_reply_chain_partial : forall f s bs es,
   (cstate s = ST_ACTIVE \/ cstate s = ST_AWAITING) ->
   journal_ok s -> NoDup (map r_seq (rows s)) ->
   in_class (k_end_beyond_64 s) bs es = false ->               (* not: EndSeqNo > 2^63-1 while something sent is asked for *)
-  in_class (k_bounded_end s) bs es = false ->                 (* EndSeqNo = 0 or >= the last sent number *)
   in_class (k_row_carries_possdup_tags f s) bs es = false ->  (* no replayed row in range was journaled with tag 43/122 *)
-  in_class (k_hole_before_replayed f s) bs es = false ->      (* no replayed row in range follows a missing number *)
   resend_correct f s bs es.
 Proof. exact resend_partial_total. Qed.
 Print Assumptions C06_reply_chain_partial.
@@ -72,16 +72,15 @@ Theorem C06_repeated_requests : forall f s bs es f2 bs2 es2,
   journal_ok s -> NoDup (map r_seq (rows s)) ->
   let s1 := fst (serve_resend f bs es s) in
   in_class (k_end_beyond_64 s) bs2 es2 = false ->
-  in_class (k_bounded_end s) bs2 es2 = false ->
   in_class (k_row_carries_possdup_tags f2 s) bs2 es2 = false ->
-  in_class (k_hole_before_replayed f2 s) bs2 es2 = false ->
   resend_correct f2 s1 bs2 es2.
 Proof. exact serve_repeatable. Qed.
 Print Assumptions C06_repeated_requests.
 
-(* pristine journals (original sends numbered 1..n, a suffix may be missing), ANY BeginSeqNo, EndSeqNo = 0 *)
-Theorem C06_reply_chain_pristine : forall f s bs es b,
-  py_int bs = Some b -> py_int es = Some 0 ->
+(* pristine journals (original sends numbered 1..n, a suffix may be missing): ANY BeginSeqNo and ANY
+   EndSeqNo up to 2^63-1 *)
+Theorem C06_reply_chain_pristine : forall f s bs es b e,
+  py_int bs = Some b -> py_int es = Some e -> e <= INT64_MAX ->
   (cstate s = ST_ACTIVE \/ cstate s = ST_AWAITING) -> pristine s ->
   resend_correct f s (Some bs) (Some es).
 Proof. exact pristine_total. Qed.
@@ -142,44 +141,56 @@ Theorem C06_begin_nonpositive_example :
 Proof. exact begin_nonpositive_example. Qed.
 Print Assumptions C06_begin_nonpositive_example.
 
-(* ---- refutations of the full statement, one per remaining known-finding class (each witness is
-   replayed on the implementation; classes_of = the four predicates in the order of the partial theorem) *)
+(* bounded EndSeqNo (was C06-bounded-end): the reply stops at EndSeqNo *)
+Theorem C06_bounded_end_ok :
+  resend_correct w_all w_bounded (dec 2) (dec 2) /\ resend_correct w_all w_bounded2 (dec 2) (dec 3)
+  /\ map r_seq (wire (fst (serve_resend w_all (dec 2) (dec 2) w_bounded))) = [2]
+  /\ (let s' := fst (serve_resend w_all (dec 2) (dec 3) w_bounded2) in
+      map r_seq (wire s') = [2; 3] /\ map (fun r => get_tag T_NewSeqNo (r_body r)) (wire s') = [None; Some [52%N]]).
+Proof. exact bounded_end_ok. Qed.
+Print Assumptions C06_bounded_end_ok.
 
-(* bounded EndSeqNo: the reply gap-fills past EndSeqNo up to next_num_out *)
-Theorem C06_bounded_end_refuted :
-  pristine w_bounded
-  /\ classes_of w_all w_bounded (dec 2) (dec 2) = (false, true, false, false)
-  /\ ~ resend_correct w_all w_bounded (dec 2) (dec 2)
-  /\ (let (s', x) := serve_resend w_all (dec 2) (dec 2) w_bounded in
-      x = None /\ map r_seq (wire s') = [2; 3]
-      /\ map (fun r => get_tag T_NewSeqNo (r_body r)) (wire s') = [None; Some [53%N]]).
-Proof. exact bounded_end_refuted. Qed.
-Print Assumptions C06_bounded_end_refuted.
+(* a hole between two application rows is gap-filled (was C06-hole-before-replayed, D21):
+   rows {1,2,4,5} -> D2, GapFill(3 -> 4), D4, D5 *)
+Theorem C06_hole_ok :
+  resend_correct w_all w_hole (dec 2) (dec 0)
+  /\ (let s' := fst (serve_resend w_all (dec 2) (dec 0) w_hole) in
+      map r_seq (wire s') = [2; 3; 4; 5]
+      /\ map (fun r => get_tag T_NewSeqNo (r_body r)) (wire s') = [None; Some [52%N]; None; None]).
+Proof. exact hole_ok. Qed.
+Print Assumptions C06_hole_ok.
+
+(* holes, a session row, a declined row and bounded EndSeqNo together: rows {1 Logon, 2, 5, 6 HB,
+   9 (declined), 10}, next 13: Resend(2,10) -> D2, GF(3->5), D5, GF(6->10), D10;
+   Resend(3,8) -> GF(3->5), D5, GF(6->9) *)
+Theorem C06_holes_and_bounded_end_ok :
+  resend_correct w_filter9 w_gappy (dec 2) (dec 10) /\ resend_correct w_filter9 w_gappy (dec 3) (dec 8)
+  /\ (let s' := fst (serve_resend w_filter9 (dec 2) (dec 10) w_gappy) in
+      map r_seq (wire s') = [2; 3; 5; 6; 10]
+      /\ map (fun r => get_tag T_NewSeqNo (r_body r)) (wire s') = [None; Some [53%N]; None; Some [49; 48]%N; None])
+  /\ (let s' := fst (serve_resend w_filter9 (dec 3) (dec 8) w_gappy) in
+      map r_seq (wire s') = [3; 5; 6]
+      /\ map (fun r => get_tag T_NewSeqNo (r_body r)) (wire s') = [Some [53%N]; None; Some [57%N]]).
+Proof. exact holes_and_bounded_end_ok. Qed.
+Print Assumptions C06_holes_and_bounded_end_ok.
+
+(* ---- refutations of the full statement, one per remaining known-finding class (each witness is
+   replayed on the implementation; classes_of = the two predicates in the order of the partial theorem) *)
 
 (* EndSeqNo = 2^63 with BeginSeqNo = 2 of 2 sent: OverflowError, no answer to a valid request *)
 Theorem C06_end_beyond_64_refuted :
   pristine w_small
-  /\ classes_of w_all w_small (dec 2) (dec two63) = (true, false, false, false)
+  /\ classes_of w_all w_small (dec 2) (dec two63) = (true, false)
   /\ ~ resend_correct w_all w_small (dec 2) (dec two63)
   /\ (let (s', x) := serve_resend w_all (dec 2) (dec two63) w_small in
       x = Some EOverflow /\ wire s' = [] /\ cstate s' = ST_ACTIVE).
 Proof. exact end_beyond_64_refuted. Qed.
 Print Assumptions C06_end_beyond_64_refuted.
 
-(* a hole between two application rows is not gap-filled: rows {1,2,4,5} -> reply 2,4,5 (D21) *)
-Theorem C06_hole_refuted :
-  journal_ok w_hole /\ NoDup (map r_seq (rows w_hole))
-  /\ classes_of w_all w_hole (dec 2) (dec 0) = (false, false, false, true)
-  /\ ~ resend_correct w_all w_hole (dec 2) (dec 0)
-  /\ (let (s', x) := serve_resend w_all (dec 2) (dec 0) w_hole in
-      x = None /\ map r_seq (wire s') = [2; 4; 5] /\ map r_type (wire s') = [[68%N]; [68%N]; [68%N]]).
-Proof. exact hole_refuted. Qed.
-Print Assumptions C06_hole_refuted.
-
 (* an application message journaled with tag 43 (PossDupFlag=N) in its body is never retransmitted *)
 Theorem C06_possdup_tag_refuted :
   journal_ok w_tagged /\ NoDup (map r_seq (rows w_tagged))
-  /\ classes_of w_all w_tagged (dec 2) (dec 0) = (false, false, true, false)
+  /\ classes_of w_all w_tagged (dec 2) (dec 0) = (false, true)
   /\ ~ resend_correct w_all w_tagged (dec 2) (dec 0)
   /\ (let (s', x) := serve_resend w_all (dec 2) (dec 0) w_tagged in
       x = Some EDuplicatedTag /\ wire s' = [] /\ cstate s' = ST_ACTIVE).
@@ -190,7 +201,7 @@ Print Assumptions C06_possdup_tag_refuted.
    suffix, in RESENDREQ_AWAITING, meets every hypothesis of C06_reply_chain_partial *)
 Example C06_nonvacuous :
   journal_ok w_rich /\ NoDup (map r_seq (rows w_rich)) /\ cstate w_rich = ST_AWAITING
-  /\ classes_of w_filter w_rich (dec 2) (dec 0) = (false, false, false, false)
+  /\ classes_of w_filter w_rich (dec 2) (dec 0) = (false, false)
   /\ (let s' := fst (serve_resend w_filter (dec 2) (dec 0) w_rich) in
       map r_seq (wire s') = [2; 3; 5; 6] /\ map r_type (wire s') = [[68%N]; MT_SEQUENCERESET; [68%N]; MT_SEQUENCERESET]
       /\ map (fun r => get_tag T_NewSeqNo (r_body r)) (wire s') = [None; Some [53%N]; None; Some [57%N]]
